@@ -206,17 +206,27 @@ class RegSetModel:
         # the switch operand must be the class of the register being written
         ok = False
         if cond is not None:
+            from sa import ctx as X_
+            al, resolve = X_.aliases(fn)
+
+            def is_class_of_register(path):
+                rp = resolve(path) if path else ""
+                return rp.startswith("scpi_reg_details[") and rp.endswith(".type")
             p = cond.get("path", "")
-            if p.startswith("scpi_reg_details[") and p.endswith(".type"):
+            if is_class_of_register(p):
                 ok = True
             elif cond.k == "DeclRefExpr":
+                name = cond["decl"]["name"]
                 for n in fn.nodes.values():
                     if n.k == "DeclStmt":
                         for d in n.get("decls", []):
-                            if d["name"] == cond["decl"]["name"] and "init" in d:
-                                ip = fn.nodes[d["init"]].strip_all_casts().get("path", "")
-                                if ip.startswith("scpi_reg_details[") and ip.endswith(".type"):
+                            if d["name"] == name and "init" in d:
+                                if is_class_of_register(fn.nodes[d["init"]].strip_all_casts().get("path", "")):
                                     ok = True
+                    t = C.store_target(n)
+                    if t is not None and t.get("path") == name and n.get("op") == "=":
+                        if is_class_of_register(n.child(1).strip_all_casts().get("path", "")):
+                            ok = True
         if not ok:
             self.problems.append("switch operand `%s` is not scpi_reg_details[name].type" % self.cond_src)
             return
